@@ -286,6 +286,8 @@ class Externals(object):
             for i, it in enumerate(items):
                 if i:
                     parts.append(s)
+                if isinstance(it, Opt) and it.kind == "str":
+                    it = interp.none_obligation(it, node, "join of None")
                 parts.append(it)
             return mkstr(parts)
         if name == "strip" and isinstance(s, str):
@@ -322,6 +324,11 @@ class Externals(object):
             lo_ = 0 if lo is None else lo
             if isinstance(lo_, int) and lo_ >= 0 and hi is None:
                 return z3.SubString(base, lo_, n - lo_)
+            if lo is None and hi is not None:
+                h = hi if ops.is_sym(hi) else z3.IntVal(hi)
+                # python: s[:h] ; negative h counts from the end
+                stop = z3.If(h < 0, z3.If(n + h < 0, z3.IntVal(0), n + h), z3.If(h > n, n, h))
+                return z3.SubString(base, 0, stop)
         h = self.regex_handlers.get("slice")
         if h is not None:
             return h(interp, base, lo, hi, node)
@@ -349,6 +356,10 @@ class Externals(object):
         raise Unsupported("float(%r)" % (v,), node)
 
     def to_int(self, interp, v, node):
+        if is_symstr(v):
+            # int("<digits>") : the digit strings captured by \d+ (never raises for them)
+            interp.ctx.assumed.add("A2:int(s) of a digit string is its decimal value (z3 str.to.int)")
+            return z3.StrToInt(v)
         if ops.is_sym(v) and z3.is_real(v):
             # int() truncates toward zero
             interp.ctx.assumed.add("A2:int(v) truncates toward zero")
@@ -395,6 +406,9 @@ class Externals(object):
             if z is None:
                 raise Unsupported("regex sub on formatted string", node)
             return GCODE_PARAMS(z)
+        if name == "match" and not getattr(rx, "opaque_predicate", False) and len(args) == 2 and (is_symstr(args[0]) or isinstance(args[0], str)):
+            from . import rx as rxmod
+            return rxmod.structural_match(interp, rx.pattern, args[0], args[1], node)
         if name == "match" and getattr(rx, "opaque_predicate", False):
             interp.ctx.assumed.add("A2:a configured parameterPattern.match(parameters) is an opaque predicate")
             return interp.ctx.bool("re.match", record=True)
